@@ -25,4 +25,7 @@ func init() {
 	specs["C07"] = &PropSpec{Level: "exploration", QuickRuns: 96, ThorRuns: 1200, Wall: 180 * time.Second, MaxProcs: 2,
 		Rule:   "evaluation = one scope tree (depth <= 3, 1-2 children per scope) over the six propagation modes x callback outcome x link to the parent (same context, fresh context carrying the xid, grpc interceptor pair with upper/lower-case metadata, gin middleware with both header spellings, dubbo filter with SEATA_XID / TX_XID / tx_xid attachments), executed for real and interpreted by a reference interpreter of the documented semantics; distinct = distinct trees; non-trivial = depth > 1",
 		Assume: append([]string{"the schedule/fault dimension is deliberately empty for this property (fault-free coordinator, benign delays): the quantifier is over programs", "integration transports (gRPC/HTTP/dubbo) are not run: the interceptors/middleware/filter are the real functions, the wire is the metadata/header/attachment map copied into a fresh context"}, commonAssume...)}
+	specs["C05"] = &PropSpec{Level: "exploration", QuickRuns: 64, ThorRuns: 800, Wall: 240 * time.Second, MaxProcs: 2,
+		Rule:   "episode = one global transaction with 1-3 TCC prepares (5 registered actions in interface and tagged-function style, parameter structs from a fixed family with generated values, registration accepted / refused / unanswered, try ok or failing) followed by 1-6 phase-two requests (commit/rollback, repeated, unknown resource, unknown branch id, application data as registered / empty / malformed, user method ok / error / panic); distinct = (parameter kind, registration, try) and (commit, data, unknown, result) signatures; non-trivial = any prepare, and any phase-two request that is not a plain successful one",
+		Assume: append([]string{"user try/commit/rollback are recording stubs with scripted results", "nil prepare parameters are outside the generated family (reflect.ValueOf(nil) makes TwoPhaseAction.Prepare panic; noted in DESIGN.md, not part of the property's quantifier)"}, commonAssume...)}
 }
